@@ -17,6 +17,8 @@ CHECKS = {
          TB + "Fixed-point comparisons within 2 units of a threshold take the exact double comparison recorded in the trace.", TECH, "4/C03"),
  "C04": ("TLC checks online mystery-jump machine = declarative clean-dry definition on all small records; each record is replayed through load+classify and the committed flags and interstorm intervals must equal the specification's; on the field datasets every one of the ~2*10^4 per-sample flags and every interval is judged by TLC, one state per sample.",
          TB + "At-threshold increments only with binary-fraction step lengths (the origin dependence on other steps is C07).", TECH, "4/C04"),
+ "C09": ("RefLevel.tla states on-grid-ness and the level index in exact rational arithmetic; TLC enumerates (step in {1,0.5,0.1,0.2,0.3,2.5,5} mm, dataset offset, k, fraction) with the verdict; per (step, offset) a lattice dataset built from a Hydro.tla behaviour is loaded, classified and gridded through the CLI and every reference inside the curve is typed as its exact decimal string into `rise -r` and `recession -r`: accepted references must make the master curve zero at that level, off-grid ones must be refused leaving the dataset unchanged, and without -r the highest level is the origin.",
+         TB + "References outside the assembled curve are not judged (the code raises KeyError there; the property speaks of multiples of the step, the curve's extent is a different matter).", "TLA+ enumeration of exact-rational cases (TLC) + replay through the CLI", "4/C09"),
  "C10": ("TLC enumerates every input triple of MCLoad.tla (steps, offsets, row counts, up to two blocks of missing level rows) checking transcription = declarative labels and the C10 consequences as invariants, and emits the expected tables; each acceptable configuration is written as shuffled text files and loaded by the real code (API and CLI), all five tables compared exactly (levels against exact rationals within 1e-9); the field datasets' loads (with and without carved gaps) are validated by TraceLoad.tla, one state per source row / grid instant.",
          TB + "Labels are compared up to an order-preserving renaming; the closing instant is not required to carry a level.", TECH, "4/C10"),
  "C11": ("TLC proves the ValidInstants oracle sound and complete on all abstract zones (<=2 transitions), then computes ValidInstants from zone tables parsed out of pytz's own TZif files for probes around transitions (quick: 24 zones, thorough: all ~600) and the real generate_timestamped_rows must store a member; every configuration Load.tla refuses must raise the matching ValueError; a second load must be refused and leave the logical dump unchanged.",
